@@ -213,7 +213,7 @@ def run(chk):
     chk.assumptions += ["the tables are used only through the public functions; distinct table parameters of one call denote distinct tables",
                         "lifecycle functions (init / free*) are called by a thread that owns the table exclusively",
                         "version stamps in conc_stress.c are relaxed atomics; their validity as call/return stamps relies on x86-TSO"]
-    st = instance_status() if pr.ok or pr.broken is None or True else None
+    st = instance_status()
     full_proved = None
     if st["full"] is True:
         full_proved, txt = prove_full_instance()
@@ -244,10 +244,10 @@ def run(chk):
     nscripts = 2 if quick else 8
     for i in range(nscripts):
         ops, qs = gen_script(rnd, nops=rnd.randint(50, 90))
-        plan.append(("gen%d/no-enum" % i, ops, qs, 6000 if quick else 40000, False, False))
-        plan.append(("gen%d/enum" % i, ops, qs, 3000 if quick else 20000, True, False))
+        plan.append(("gen%d/no-enum" % i, ops, qs, 9000 if quick else 40000, False, False))
+        plan.append(("gen%d/enum" % i, ops, qs, 4000 if quick else 20000, True, False))
     ops, qs = gen_script(rnd, nops=60)
-    plan.append(("notify-diff", ops, qs, 3000 if quick else 20000, False, True))
+    plan.append(("notify-diff", ops, qs, 4000 if quick else 20000, False, True))
     totals = {"validate": 0, "get_all": 0, "search_by_ski": 0, "enumerate": 0, "writer_ops": 0, "overlapped": 0, "diff_calls": 0,
               "unchecked_wide_windows": 0}
     runs, findings = [], {}
